@@ -57,3 +57,38 @@ def before_diff(c):
             dst = os.path.join(c.tmp, "drv_" + e.lower())
             shutil.copy2(src, dst)
             c.drivers[e] = dst
+
+RACE_OPS = [
+    "stress 8 2000 0 0",
+    "stress 64 5000 0 0",
+    "stress 16 1000 18446744073709543615 18446744073709551000",
+    "stress 32 500 4294959295 9223372036854771807",
+]
+
+
+def extra(c):
+    """Thorough tier: the concurrent ops again on a harness built with the Go race detector
+    (`go build -race`). A reported data race, or an answer that differs from the model's, fails."""
+    import os, subprocess
+    import vlib
+    if c.tier != "thorough" or not c.harness:
+        return
+    binary, log = vlib.build_harness(PROP["go_tags"], race=True)
+    if binary is None:
+        c.oblige("race-build:%s" % PROP["id"], "tie", False, log[-1500:])
+        return
+    engine = PROP["engines"][0]
+    ops = RACE_OPS
+    env = dict(os.environ, GORACE="halt_on_error=0 exitcode=0", TMPDIR=c.tmp)
+    p = subprocess.run([binary, engine, "run"], input="\n".join(ops) + "\n", stdout=subprocess.PIPE, stderr=subprocess.PIPE, text=True, timeout=1500, env=env)
+    got = [l for l in p.stdout.split("\n") if l != ""]
+    want = c.lean_run(engine, ops)
+    races = p.stderr.count("WARNING: DATA RACE")
+    bad = [(o, g, w) for o, g, w in zip(ops, got, want) if not vlib.outputs_agree(g, w)]
+    ok = races == 0 and not bad and len(got) == len(ops)
+    detail = "%d ops under -race, %d data race reports" % (len(ops), races)
+    if not ok:
+        detail += " | first disagreement: %r | stderr: %s" % (bad[:1], p.stderr[-1200:])
+    c.oblige("race-detector:%s" % engine, "tie", ok, detail)
+    if not ok:
+        c.violate("data race or disagreement under the race detector", {"engine": engine, "ops": ops, "impl_outputs": got, "model_outputs": want, "stderr": p.stderr[-2000:]}, races > 0)
